@@ -34,6 +34,8 @@ func init() {
 			c.ruleSizeAppend("R-SIZE-APPEND", []string{"internal/impl", "proto"}, sizeAppendNotAnalysed, 130)
 			c.ruleMapKeyOrder("R-MAPKEY-ORDER")
 			c.ruleMapEntryOnce("R-MAP-ENTRY-ONCE")
+			c.ruleMsetUnknownCanon("R-MSET-UNKNOWN-CANON")
+			c.ruleReflMsgMerge("R-REFL-MSG-MERGE", 5)
 			c.ruleMapReplace("R-MAP-REPLACE")
 		},
 	})
